@@ -67,3 +67,33 @@ Theorem C03_numbering_round_trip : forall (F : FieldOps) (m : Mesh F) (c : cell)
 Proof. exact cell_of_no_cellno. Qed.
 Print Assumptions C03_closure_from_rows.
 Print Assumptions C03_numbering_round_trip.
+
+(* ---- the plot profile (CellVariable.plotprofile, session 3): at a boundary face it reports the face average of the stored values, which
+   therefore satisfies the configured relation together with the stored difference quotient, and IS the Dirichlet value c / b when a = 0.
+   The code's plotprofile is tied to plot_profile by the symbolic suite (profile_* lemmas, all nine classes). ---- *)
+Theorem C03_profile_robin_hi : forall (F : FieldOps) (L : FieldLaws F) (m : Mesh F) (bc : BCs F) (phi : cvar F) a g,
+  ghost_axis F m g = Some (a, true) -> Grid.interior F m g = false -> Grid.interior F m (cdn a g) = true ->
+  bper F bc a = false -> kadd F (aoh F m bc a true g) (kdiv F (bcb F bc a true g) (kadd F (k1 F) (k1 F))) <> k0 F ->
+  let X := with_boundaries F m bc phi in
+  kadd F (kmul F (aoh F m bc a true g) (ksub F (X g) (X (cdn a g)))) (kmul F (bcb F bc a true g) (plot_profile F m X g)) = bcc F bc a true g.
+Proof. exact profile_robin_hi. Qed.
+Theorem C03_profile_robin_lo : forall (F : FieldOps) (L : FieldLaws F) (m : Mesh F) (bc : BCs F) (phi : cvar F) a g,
+  ghost_axis F m g = Some (a, false) -> Grid.interior F m g = false -> Grid.interior F m (cup a g) = true ->
+  bper F bc a = false -> kadd F (kopp F (aoh F m bc a false g)) (kdiv F (bcb F bc a false g) (kadd F (k1 F) (k1 F))) <> k0 F ->
+  let X := with_boundaries F m bc phi in
+  kadd F (kmul F (aoh F m bc a false g) (ksub F (X (cup a g)) (X g))) (kmul F (bcb F bc a false g) (plot_profile F m X g)) = bcc F bc a false g.
+Proof. exact profile_robin_lo. Qed.
+Theorem C03_profile_dirichlet_hi : forall (F : FieldOps) (L : FieldLaws F) (m : Mesh F) (bc : BCs F) (phi : cvar F) a g,
+  ghost_axis F m g = Some (a, true) -> Grid.interior F m g = false -> Grid.interior F m (cdn a g) = true ->
+  bper F bc a = false -> aoh F m bc a true g = k0 F -> bcb F bc a true g <> k0 F ->
+  plot_profile F m (with_boundaries F m bc phi) g = kdiv F (bcc F bc a true g) (bcb F bc a true g).
+Proof. exact profile_dirichlet_hi. Qed.
+Theorem C03_profile_dirichlet_lo : forall (F : FieldOps) (L : FieldLaws F) (m : Mesh F) (bc : BCs F) (phi : cvar F) a g,
+  ghost_axis F m g = Some (a, false) -> Grid.interior F m g = false -> Grid.interior F m (cup a g) = true ->
+  bper F bc a = false -> aoh F m bc a false g = k0 F -> bcb F bc a false g <> k0 F ->
+  plot_profile F m (with_boundaries F m bc phi) g = kdiv F (bcc F bc a false g) (bcb F bc a false g).
+Proof. exact profile_dirichlet_lo. Qed.
+Print Assumptions C03_profile_robin_hi.
+Print Assumptions C03_profile_robin_lo.
+Print Assumptions C03_profile_dirichlet_hi.
+Print Assumptions C03_profile_dirichlet_lo.
